@@ -360,7 +360,29 @@ fn case(g: &mut Gen, ctx: &mut Ctx) -> CaseResult {
     // body: generated as this type's kind (mostly), as another kind, or faulty
     let kind = if g.ratio(2, 3) { t.kind } else { *g.pick(&KINDS) };
     let mut f = if g.ratio(1, 4) { Faults::one() } else { Faults::none() };
-    let item = gen_msg(g, kind, &mut f, 1);
+    let mut item = gen_msg(g, kind, &mut f, 1);
+    if g.ratio(1, 10) {
+        // an extra parameter whose (uninterpreted) value is not something a typed decoder would take: a
+        // map repeating a key, possibly inside an array or under a tag — tagged and untagged decoding
+        // must treat the body alike
+        if let Item::Array(slots) = &mut item {
+            if let Some(Item::Map(m)) = slots.get_mut(1) {
+                let k = Item::Int(g.range_i64(-3, 3) as i128);
+                let dup = Item::Map(vec![(k.clone(), Item::Int(2)), (Item::Text("x".into()), Item::Null), (k, Item::Int(3))]);
+                let v = match g.below(3) {
+                    0 => dup,
+                    1 => Item::Array(vec![Item::Int(0), dup]),
+                    _ => Item::Tag(1000, Box::new(dup)),
+                };
+                let mut l = 1000;
+                while m.iter().any(|(x, _)| x == &Item::Int(l)) {
+                    l += 1;
+                }
+                m.push((Item::Int(l), v));
+                ctx.class("gen:opaque-value-with-repeated-key");
+            }
+        }
+    }
     let o = if g.bool() { StyleOpts::NONE } else { StyleOpts::ALL };
     let (body, _) = styled(&item, g, o);
     ctx.classf(format!("gen:tags:{}", tags.len()));
